@@ -147,34 +147,24 @@ Definition AGE_INF : N := 18446744073709551615 * 1000000000.
 Definition peer_age (now : N) (l : list arec) : N :=
   fold_left (fun acc r => if a_seen r <=? now then N.min acc (now - a_seen r) else acc) l AGE_INF.
 
-(* index of the last maximum (Iterator::max_by_key returns the last of equal maxima) *)
-Fixpoint last_max_from (now : N) (c : cache) (i : nat) (best : option (nat * N)) : option (nat * N) :=
-  match c with
-  | [] => best
-  | (_, l) :: t =>
-      let a := peer_age now l in
-      let best' := match best with
-                   | Some (_, b) => if b <=? a then Some (i, a) else best
-                   | None => Some (i, a)
-                   end in
-      last_max_from now t (S i) best'
+(* Iterator::max_by_key returns the last of equal maxima: the peer removed in one round of the loop is
+   the last one (in iteration order) whose age equals the maximum age *)
+Definition max_age (now : N) (c : cache) : N :=
+  fold_right (fun pl m => N.max (peer_age now (snd pl)) m) 0 c.
+
+Fixpoint remove_last_where {A} (f : A -> bool) (l : list A) : list A :=
+  match l with
+  | [] => []
+  | x :: t => if existsb f t then x :: remove_last_where f t else if f x then t else x :: t
   end.
 
-Fixpoint remove_nth {A} (n : nat) (l : list A) : list A :=
-  match l, n with
-  | [], _ => []
-  | _ :: t, O => t
-  | x :: t, S k => x :: remove_nth k t
-  end.
+Definition remove_one_oldest (now : N) (c : cache) : cache :=
+  remove_last_where (fun pl => peer_age now (snd pl) =? max_age now c) c.
 
 Fixpoint remove_oldest_n (now : N) (k : nat) (c : cache) : cache :=
   match k with
   | O => c
-  | S k' =>
-      match last_max_from now c 0 None with
-      | Some (i, _) => remove_oldest_n now k' (remove_nth i c)
-      | None => c
-      end
+  | S k' => remove_oldest_n now k' (remove_one_oldest now c)
   end.
 
 (* try_remove_oldest_peers, for the iteration order given by the list *)
@@ -188,10 +178,12 @@ Definition kept_in (pre post : cache) : bool :=
                                         list_eqb arec_eqb (snd pl) (snd ql)) pre) post.
 Definition removed_of (pre post : cache) : cache :=
   filter (fun pl => negb (existsb (fun ql => String.eqb (fst pl) (fst ql)) post)) pre.
-Definition remove_oldest_ok (cfg : config) (now : N) (pre post : cache) : bool :=
+(* `tol`: the code reads the clock once per address, so ages that differ by less than the time the
+   loop takes can compare either way; 0 for constructed times *)
+Definition remove_oldest_ok (cfg : config) (now tol : N) (pre post : cache) : bool :=
   kept_in pre post &&
   (len post =? N.min (len pre) (max_peers cfg)) &&
-  forallb (fun rm => forallb (fun kp => peer_age now (snd kp) <=? peer_age now (snd rm)) post)
+  forallb (fun rm => forallb (fun kp => peer_age now (snd kp) <=? peer_age now (snd rm) + tol) post)
           (removed_of pre post).
 
 Definition clean_peers (cfg : config) (now : N) (c : cache) : cache :=
@@ -217,23 +209,26 @@ Definition perform_cleanup_unfixed (m : arith_mode) (cfg : config) (now : N) (c 
 Definition peer_of (a : addr) : option peer :=
   match find is_p2p a with Some (P2p id) => Some id | _ => None end.
 
-Definition add_addr (cfg : config) (now : N) (c : cache) (raw : addr) : cache :=
+(* add_addr up to the point where it either returns or runs the clean-up (second component) *)
+Definition add_addr_core (now : N) (c : cache) (raw : addr) : cache * bool :=
   match craft raw false with
-  | None => c
+  | None => (c, false)
   | Some a =>
       match peer_of a with
-      | None => c
+      | None => (c, false)
       | Some p =>
           match lookup c p with
           | Some l =>
-              if has l a then set_peer c p (upd_first (fun r => with_seen r now) a l)     (* no clean-up *)
-              else perform_cleanup cfg now
-                     (set_peer c p (insert_addr l {| a_addr := a; a_s := 1; a_f := 0; a_seen := now |}))
-          | None =>
-              perform_cleanup cfg now (set_peer c p [{| a_addr := a; a_s := 1; a_f := 0; a_seen := now |}])
+              if has l a then (set_peer c p (upd_first (fun r => with_seen r now) a l), false)   (* touch, no clean-up *)
+              else (set_peer c p (insert_addr l {| a_addr := a; a_s := 1; a_f := 0; a_seen := now |}), true)
+          | None => (set_peer c p [{| a_addr := a; a_s := 1; a_f := 0; a_seen := now |}], true)
           end
       end
   end.
+
+Definition add_addr (cfg : config) (now : N) (c : cache) (raw : addr) : cache :=
+  let r := add_addr_core now c raw in
+  if snd r then perform_cleanup cfg now (fst r) else fst r.
 
 Definition update_addr_status (now : N) (c : cache) (a : addr) (success : bool) : cache :=
   match peer_of a with
@@ -250,6 +245,23 @@ Definition remove_addr (c : cache) (a : addr) : cache :=
   | None => c
   | Some p => match lookup c p with Some l => set_peer c p (remove_first a l) | None => c end
   end.
+
+(* ---- histories: every operation carries the clock value at which it runs *)
+Inductive op :=
+| OpAdd (raw : addr) | OpStatus (a : addr) (ok : bool) | OpRemove (a : addr)
+| OpSync (other : cache) | OpCleanup.
+
+Definition step (cfg : config) (c : cache) (t : N * op) : cache :=
+  match snd t with
+  | OpAdd raw => add_addr cfg (fst t) c raw
+  | OpStatus a ok => update_addr_status (fst t) c a ok
+  | OpRemove a => remove_addr c a
+  | OpSync other => cache_sync c other
+  | OpCleanup => perform_cleanup cfg (fst t) c
+  end.
+Definition run (cfg : config) (ops : list (N * op)) (c : cache) : cache := fold_left (step cfg) ops c.
+
+Definition is_sync (o : op) : bool := match o with OpSync _ => true | _ => false end.
 
 (* ---- persistence.  file = None: no file (or unreadable); dec t = None: not a cache file *)
 Definition load_cache (dec : string -> option cache) (cfg : config) (now : N) (file : option string)
@@ -308,6 +320,18 @@ Definition fs_do_inplace (st : fs) (s : fs_step) : fs :=
   | Commit _ => st
   end.
 
+Definition run_fs (st : fs) (steps : list fs_step) : fs := fold_left fs_do steps st.
+
+(* what writer w has streamed since its last commit (a property of the writers' own programs, not of
+   the interleaving) *)
+Fixpoint pending_acc (w : nat) (acc : string) (steps : list fs_step) : string :=
+  match steps with
+  | [] => acc
+  | WriteChunk v ch :: t => pending_acc w (if Nat.eqb v w then append acc ch else acc) t
+  | Commit v :: t => pending_acc w (if Nat.eqb v w then EmptyString else acc) t
+  end.
+Definition pending (w : nat) (steps : list fs_step) : string := pending_acc w EmptyString steps.
+
 (* ------------------------------------------------------------------ agreement helpers *)
 (* map equality against an implementation dump (peers sorted by the harness, per-peer order kept) *)
 Definition cache_sub (a b : cache) : bool :=
@@ -317,24 +341,123 @@ Definition cache_sub (a b : cache) : bool :=
                      end) a.
 Definition cache_eqb (a b : cache) : bool := (len a =? len b) && cache_sub a b && cache_sub b a.
 
+(* the store's dump (get_all_addrs) cannot show a peer whose last address was removed *)
+Definition drop_empty (c : cache) : cache :=
+  filter (fun pl => negb (match snd pl with [] => true | _ => false end)) c.
+Definition mem_eqb (a b : cache) : bool := cache_eqb (drop_empty a) (drop_empty b).
+
 Definition all_wf_b (c : cache) : bool :=
   forallb (fun pl => forallb (fun r => wf_addr (a_addr r)) (snd pl)) c.
 
 Definition bounded_b (cfg : config) (c : cache) : bool :=
   (len c <=? max_peers cfg) && forallb (fun pl => len (snd pl) <=? max_addrs cfg) c.
 
+(* perform_cleanup against an implementation dump: exact when no peer had to be evicted, otherwise the
+   implementation's choice is checked with the acceptor *)
+Definition cleanup_agree (cfg : config) (now tol : N) (c impl : cache) : bool :=
+  let pre := map (fun pl => (fst pl, truncate_addrs cfg (snd pl))) (clean_peers cfg now c) in
+  remove_oldest_ok cfg now tol pre impl &&
+  (if len pre <=? max_peers cfg then cache_eqb pre impl else true).
+
 (* load_cache_data on a file whose decoding is `data` (None: serde rejected it).
-   kind: 0 Ok, 1 Err, 2 Panic.  When the clean-up had to choose among peers (more than max_peers),
-   the implementation's choice is checked with the acceptor. *)
+   kind: 0 Ok, 1 Err, 2 Panic. *)
 Definition agree_load (unfixed : bool) (cfg : config) (now : N) (present : bool) (data : option cache)
            (kind : N) (impl : cache) : bool :=
   let file := if present then Some EmptyString else None in
   if unfixed && is_panic (load_cache_unfixed Debug (fun _ => data) cfg now file) then kind =? 2
   else
     match file, data with
-    | Some _, Some c =>
-        let pre := map (fun pl => (fst pl, truncate_addrs cfg (snd pl))) (clean_peers cfg now c) in
-        (kind =? 0) && remove_oldest_ok cfg now pre impl &&
-        (if len pre <=? max_peers cfg then cache_eqb pre impl else true)
+    | Some _, Some c => (kind =? 0) && cleanup_agree cfg now 0 c impl
     | _, _ => kind =? 1
     end.
+
+(* ---- histories on CacheData values (constructed times; one clock for the whole case).
+   Lock-step: the state a step starts from is the implementation's dump after the previous step. *)
+Inductive dstep :=
+| DInsert (slot : nat) (p : peer) (r : arec) | DSync (slot other : nat)
+| DCleanup (slot : nat) | DRemoveOldest (slot : nat).
+
+Fixpoint set_nth {A} (n : nat) (x : A) (l : list A) : list A :=
+  match l, n with
+  | [], _ => []
+  | _ :: t, O => x :: t
+  | y :: t, S k => y :: set_nth k x t
+  end.
+
+Definition dstep_slot (s : dstep) : nat :=
+  match s with DInsert i _ _ => i | DSync i _ => i | DCleanup i => i | DRemoveOldest i => i end.
+
+Definition dstep_ok (cfg : config) (now : N) (slots : list cache) (s : dstep) (post : cache) : bool :=
+  match s with
+  | DInsert i p r => cache_eqb (cache_insert (nth i slots []) p r) post
+  | DSync i j => cache_eqb (cache_sync (nth i slots []) (nth j slots [])) post
+  | DCleanup i => cleanup_agree cfg now 0 (nth i slots []) post
+  | DRemoveOldest i =>
+      remove_oldest_ok cfg now 0 (nth i slots []) post &&
+      (if len (nth i slots []) <=? max_peers cfg then cache_eqb (nth i slots []) post else true)
+  end.
+
+Fixpoint agree_dtrace (cfg : config) (now : N) (slots : list cache) (tr : list (dstep * cache)) : bool :=
+  match tr with
+  | [] => true
+  | (s, post) :: rest =>
+      dstep_ok cfg now slots s post && agree_dtrace cfg now (set_nth (dstep_slot s) post slots) rest
+  end.
+
+(* ---- histories on the store with a cache file (real clock: every step carries its own `now`) *)
+Inductive fstate := FAbsent | FCorrupt | FCache (c : cache).
+Inductive sstep :=
+| SAdd (raw : option addr)                 (* None: the text did not parse as a multiaddress *)
+| SStatus (a : option addr) (ok : bool) | SRemove (a : option addr) | SCleanup
+| SSetFile (f : fstate)                    (* another process / a foreign file replaces the cache file *)
+| SFlush (with_cleanup : bool) | SLoad | SNop.
+
+(* what the implementation showed after the step: the store, the file (after writes), the load result *)
+Record sobs := { o_mem : cache; o_file : fstate; o_loaded : option cache }.
+
+Definition file_load (cfg : config) (now : N) (f : fstate) : outcome cache :=
+  match f with
+  | FAbsent => load_cache (fun _ => None) cfg now None
+  | FCorrupt => load_cache (fun _ => None) cfg now (Some EmptyString)
+  | FCache c => load_cache (fun _ => Some c) cfg now (Some EmptyString)
+  end.
+
+Definition fstate_cache (f : fstate) : cache := match f with FCache c => c | _ => [] end.
+Definition is_fcache (f : fstate) : bool := match f with FCache _ => true | _ => false end.
+
+Definition sstep_ok (cfg : config) (tol : N) (mem : cache) (file : fstate) (t : N * sstep) (o : sobs) : bool :=
+  let now := fst t in
+  match snd t with
+  | SAdd None => mem_eqb mem (o_mem o)
+  | SAdd (Some raw) =>
+      let r := add_addr_core now mem raw in
+      if snd r then cleanup_agree cfg now tol (fst r) (o_mem o) else mem_eqb (fst r) (o_mem o)
+  | SStatus None _ | SRemove None | SNop => mem_eqb mem (o_mem o)
+  | SStatus (Some a) ok => mem_eqb (update_addr_status now mem a ok) (o_mem o)
+  | SRemove (Some a) => mem_eqb (remove_addr mem a) (o_mem o)
+  | SCleanup => cleanup_agree cfg now tol mem (o_mem o)
+  | SSetFile _ => mem_eqb mem (o_mem o)
+  | SFlush wc =>
+      let merged := match file_load cfg now file with Ok d => cache_sync mem d | _ => mem end in
+      cache_eqb [] (o_mem o) && is_fcache (o_file o) &&
+      (if wc then cleanup_agree cfg now tol merged (fstate_cache (o_file o))
+       else cache_eqb merged (fstate_cache (o_file o)))
+  | SLoad =>
+      mem_eqb mem (o_mem o) &&
+      match file, o_loaded o with
+      | FCache c, Some l => cleanup_agree cfg now tol c l
+      | FCache _, None => false
+      | _, Some _ => false
+      | _, None => true
+      end
+  end.
+
+Fixpoint agree_strace (cfg : config) (tol : N) (mem : cache) (file : fstate)
+         (tr : list ((N * sstep) * sobs)) : bool :=
+  match tr with
+  | [] => true
+  | (t, o) :: rest =>
+      sstep_ok cfg tol mem file t o &&
+      agree_strace cfg tol (o_mem o)
+        (match snd t with SSetFile f => f | SFlush _ => o_file o | _ => file end) rest
+  end.
